@@ -224,11 +224,11 @@ def _introspect_fun(
             for dep_path in dep_paths:
                 obj = ObjectRetrieval.retrieve_object_global(dep_path, gctx)
                 ids.append((dep_path, PythonId(id(obj))))
-        except DDSException as e:
-            if e.error_code != DDSErrorCode.OBJECT_PATH_NOT_FOUND:
-                raise
-            # An object recorded by an earlier analysis is gone from its module: the code has
-            # changed since then and the function is analysed again.
+        except DDSException:
+            # An object recorded by an earlier analysis cannot be resolved any more (it is gone from
+            # its module, or it is now of a kind that is not tracked): the code has changed since
+            # then and the function is analysed again. Whatever is wrong with the current code is
+            # reported by that analysis, as it is in a process without this record.
             ids = [(fun_path, PythonId(-1))]
         tup = tuple(ids)
         if (fun_path, arg_ctx_hash, tup) in _global_context.cached_fun_interactions:
